@@ -546,6 +546,32 @@ func ruleRefcount(c *core.Ctx) {
 			c.Fail(rule, key, fn.Pos(), "SubscribeID never calls "+method)
 			return
 		}
+		// the remote call may sit in a private helper (registerHandler(action)) that does
+		// not touch the count: the condition is then looked for where the helper is called
+		for depth := 0; depth < 3; depth++ {
+			touches := false
+			for i := range states {
+				if states[i].fn == sf && states[i].delta == delta {
+					touches = true
+				}
+			}
+			if touches || !isPrivateHelper(c, sf) {
+				break
+			}
+			all, _ := c.CallSites()
+			var up []ssa.CallInstruction
+			for _, cs := range all[sf] {
+				for _, u := range subUnit {
+					if cs.Parent() == u {
+						up = append(up, cs)
+					}
+				}
+			}
+			if len(up) != 1 {
+				break
+			}
+			site, sf = up[0], up[0].Parent()
+		}
 		var witness *stateCall
 		for i := range states {
 			s := &states[i]
@@ -580,6 +606,24 @@ func ruleRefcount(c *core.Ctx) {
 				name = sc.Name()
 			} else if cc := call.Common(); cc.IsInvoke() {
 				name = cc.Method.Name()
+			}
+			if name != "UnregisterEvent" {
+				// a private helper that does the unregistering (unregisterHandler(action))
+				if h := core.StaticCallee(call); h != nil && isPrivateHelper(c, h) {
+					for _, u := range unitOf(c, h) {
+						for _, c2 := range core.Calls(u) {
+							n2 := ""
+							if sc := core.StaticCallee(c2); sc != nil {
+								n2 = sc.Name()
+							} else if cc := c2.Common(); cc.IsInvoke() {
+								n2 = cc.Method.Name()
+							}
+							if n2 == "UnregisterEvent" {
+								name = n2
+							}
+						}
+					}
+				}
 			}
 			if name == "UnregisterEvent" && core.Guarded(s.fn, call.(ssa.Instruction), core.Eq(isCount, isZero)) {
 				decides = true
